@@ -197,15 +197,51 @@ def check(ctx) -> Result:
         good = len(comps) == 1 and not comps[0].generators[0].ifs and src(comps[0].generators[0].iter) == "fields(self)"
         res.add(good, "H-all-fields", f"Component.{what}", m.site(), m.qualname, "enumerates every dataclass field, unfiltered", "does not enumerate every dataclass field of the component", construct=src(m.node)[:200])
     gap = ctx.func(CIRC, "Circuit.get_all_params")
-    fl = [n for n in walk_no_nested(gap.node) if isinstance(n, ast.For)]
-    outer = [n for n in fl if "unpack_circuit_spec" in src(n.iter) or "get_all_params" in src(n.iter)]
-    rec = any(isinstance(n, ast.Call) and "get_all_params" in src(n.func) for n in walk_no_nested(gap.node))
-    res.add(bool(outer) or rec, "H-collect-through-groups", "Circuit.get_all_params", gap.site(), gap.qualname, "iterates the group-flattened component list", "parameters inside groups / added sub-circuits are not collected (component list is not flattened and there is no recursion)", construct="Circuit.get_all_params")
-    inner = [n for n in fl if src(n.iter).endswith(".values()")]
-    dedup = any(isinstance(n, ast.Compare) and isinstance(n.ops[0], ast.NotIn) for n in walk_no_nested(gap.node)) or "set(" in src(gap.node) or "dict.fromkeys" in src(gap.node)
-    isparam = "isinstance(p, Parameter)" in src(gap.node) or any(isinstance(n, ast.Call) and src(n.func) == "isinstance" and "Parameter" in src(n.args[1]) for n in walk_no_nested(gap.node))
-    res.add(bool(inner) and dedup and isparam, "H-collect-all-fields-once", "Circuit.get_all_params", gap.site(), gap.qualname, "every field value of every component is tested; a parameter is appended only if not yet listed",
-            f"collection does not visit every field once: iterates values={bool(inner)} de-duplicates={dedup} type-test={isparam}", construct="Circuit.get_all_params")
+    # the collection may be spread over private helpers: analyse get_all_params together with the self-methods it reaches
+    reach, todo = [], [gap]
+    while todo:
+        f_ = todo.pop()
+        if any(f_ is x for x in reach):
+            continue
+        reach.append(f_)
+        for c in walk_no_nested(f_.node):
+            if isinstance(c, ast.Call) and isinstance(c.func, ast.Attribute) and src(c.func.value) == "self" and c.func.attr in C.methods:
+                todo.append(C.methods[c.func.attr])
+    nodes = [n for f_ in reach for n in walk_no_nested(f_.node)]
+    flat = any(isinstance(n, ast.Call) and src(n.func) == "unpack_circuit_spec" for n in nodes)
+    recurse = any(isinstance(n, ast.If) and "isinstance" in src(n.test) and "Group" in src(n.test) and any(isinstance(c, ast.Call) and isinstance(c.func, ast.Attribute) and c.func.attr in {f_.name for f_ in reach} and "circuit_spec" in src(c) for b_ in n.body for c in ast.walk(b_)) for n in nodes)
+    res.add(flat or recurse, "H-collect-through-groups", "Circuit.get_all_params", gap.site(), gap.qualname, "iterates the group-flattened component list (or recurses into groups)",
+            "parameters inside groups / added sub-circuits are not collected (component list is not flattened and there is no recursion into Group.circuit_spec)", construct="Circuit.get_all_params")
+    inner = [n for n in nodes if isinstance(n, ast.For) and src(n.iter).endswith(".values()")]
+    isparam = any(isinstance(n, ast.Call) and src(n.func) == "isinstance" and len(n.args) == 2 and "Parameter" in src(n.args[1]) for n in nodes)
+    res.frozen(bool(inner) and isparam, "H-collect-all-fields-once", "Circuit.get_all_params:fields", gap.site(), gap.qualname, "every field value of every component is type-tested", "field enumeration idiom not recognised", construct="values")
+    # "exactly once": every growth of a collected list is guarded by a not-in test on that list
+    grows = []
+    for f_ in reach:
+        par_ = ctx.tree.parents(f_.rel)
+        for n in walk_no_nested(f_.node):
+            kind = lst = elem = None
+            if isinstance(n, ast.Call) and isinstance(n.func, ast.Attribute) and n.func.attr in ("append", "extend") and isinstance(n.func.value, ast.Name) and n.args:
+                kind, lst, elem = n.func.attr, n.func.value.id, src(n.args[0])
+            elif isinstance(n, ast.AugAssign) and isinstance(n.op, ast.Add) and isinstance(n.target, ast.Name):
+                kind, lst, elem = "+=", n.target.id, src(n.value)
+            if kind is None:
+                continue
+            guarded = False
+            p_ = n
+            while p_ is not None and p_ is not f_.node:
+                q_ = par_.get(p_)
+                if isinstance(q_, ast.If) and p_ in q_.body:
+                    for cmp_ in ast.walk(q_.test):
+                        if isinstance(cmp_, ast.Compare) and isinstance(cmp_.ops[0], ast.NotIn) and src(cmp_.comparators[0]) == lst and src(cmp_.left) == elem:
+                            guarded = True
+                p_ = q_
+            grows.append((f_, n, kind, lst, elem, guarded and kind == "append"))
+    if not grows:
+        res.frozen(False, "H-collect-all-fields-once", "Circuit.get_all_params:dedup", gap.site(), gap.qualname, "", "collection idiom (list growth) not recognised", construct="dedup")
+    for f_, n, kind, lst, elem, okg in grows:
+        res.add(okg, "H-collect-all-fields-once", f"{f_.qualname}:{lst}.{kind}({elem[:30]})", f_.site(n), f_.qualname, "a parameter is appended only if it is not yet in the list",
+                f"`{src(n)[:70]}` grows the collected list without a `not in` test against it: a Parameter used in several places (or inside a group that follows another use) is listed more than once", construct=src(n)[:100])
     fz = ctx.func(CIRC, "Circuit._freeze_params")
     txt = src(fz.node)
     rec = any(isinstance(n, ast.Assign) and isinstance(n.targets[0], ast.Attribute) and n.targets[0].attr == "circuit_spec" and "_freeze_params" in src(n.value) for n in walk_no_nested(fz.node))
